@@ -126,6 +126,7 @@ def work(shard, tier):
         except (TypeError, ValueError):
             iv_params = set()
         inputs = list(gen.hostile_strings(nums, tier, rng)) + list(gen.size_strings(nums, tier))
+        inputs += [('registry-probe', 'prefix', x) for x in C.registry_probe_inputs(name, rng, 30 if tier == 'quick' else 400)]
         for cls, pc, x in inputs:
             before = past_clean[0]
             ov = check_pair(name, mod, lambda x=x: x, {}, cls, viols)
